@@ -40,6 +40,11 @@ pub struct Params {
     /// so a query can be parked while it holds the registration lock
     #[serde(default)]
     pub gate_data: bool,
+    /// the chunk of hour 1 comes from a client with another label set: it carries `region` instead of `host`, so a
+    /// statement naming `host` over hour 1 plans against the start-up placeholder but not against its own chunks
+    /// (the unknown-column retry: list all chunks, learn their columns, bind the selected ones again)
+    #[serde(default)]
+    pub hetero: bool,
 }
 
 const SEC: i64 = 1_000_000_000;
@@ -53,7 +58,7 @@ fn window_sql(hours_ago: i64, select: &str) -> String {
     format!("SELECT {select} FROM metrics WHERE timestamp >= {lo} AND timestamp <= {hi}")
 }
 
-async fn build_world() -> (Arc<dyn ObjectStore>, Arc<LocalMetadataClient>) {
+async fn build_world(hetero: bool) -> (Arc<dyn ObjectStore>, Arc<LocalMetadataClient>) {
     let mem = new_mem();
     let local = Arc::new(LocalMetadataClient::new());
     let mut id = 0;
@@ -67,7 +72,15 @@ async fn build_world() -> (Arc<dyn ObjectStore>, Arc<LocalMetadataClient>) {
                 r
             })
             .collect();
-        put_chunk(&mem, local.as_ref(), &format!("t/data/hour{h}.parquet"), &rows, false).await;
+        if hetero && h == 1 {
+            let p = format!("t/data/hour{h}.parquet");
+            let bytes = encode_parquet(&rows_to_batch_label(&rows, true, "region"));
+            let m = cardinalsin::ingester::ChunkMetadata { path: p.clone(), min_timestamp: rows[0].ts, max_timestamp: rows[rows.len() - 1].ts, row_count: rows.len() as u64, size_bytes: bytes.len() as u64 };
+            mem.put(&object_store::path::Path::from(p.as_str()), bytes.into()).await.expect("put");
+            local.register_chunk(&p, &m).await.expect("register");
+            continue;
+        }
+        put_chunk(&mem, local.as_ref(), &format!("t/data/hour{h}.parquet"), &rows, hetero).await;
     }
     (mem, local)
 }
@@ -136,7 +149,7 @@ pub struct C10Scenario {
 #[async_trait(?Send)]
 impl Scenario for C10Scenario {
     async fn setup(&mut self, ctl: &Ctl) {
-        let (mem, local) = build_world().await;
+        let (mem, local) = build_world(self.p.hetero).await;
         let gating = Arc::new(std::sync::atomic::AtomicBool::new(false));
         let g2 = gating.clone();
         let gm: Arc<dyn MetadataClient> = GatedMeta::with_filter(local.clone(), "Q", ctl, move |_| g2.load(std::sync::atomic::Ordering::SeqCst));
@@ -164,7 +177,11 @@ impl Scenario for C10Scenario {
         // still the start-up placeholder, Int64 time bounds cannot be coerced against the placeholder's Timestamp column,
         // every window is unbounded, every query selects every chunk and no two selections differ.
         let all_paths: Vec<String> = (1..=3).map(|h| format!("t/data/hour{h}.parquet")).collect();
-        node.engine.register_metrics_table_for_chunks(&all_paths).await.expect("schema warm-up");
+        if !self.p.hetero {
+            // (the mixed-label-set scenarios use Timestamp-typed chunks and literals, which the placeholder understands,
+            // and start from the placeholder on purpose)
+            node.engine.register_metrics_table_for_chunks(&all_paths).await.expect("schema warm-up");
+        }
         for w in &self.p.warm {
             let r = run_query(&node, gm.clone(), w).await;
             self.results.lock().unwrap().insert(w.name.clone(), r);
@@ -216,6 +233,9 @@ impl Scenario for C10Scenario {
         if trace.iter().any(|l| l.contains("get_chunks_with_predicates(-9223372036854775808")) {
             f.flags.push("unbounded_window".into());
         }
+        if trace.iter().any(|l| l.contains("list_chunks(")) {
+            f.flags.push("bootstrap_listing".into());
+        }
         f.outcome = format!("{results:?}");
         f
     }
@@ -231,7 +251,7 @@ fn expected_for(p: &Params) -> BTreeMap<String, Result<Vec<String>, String>> {
         let out = rt.block_on(async {
             let mut m = BTreeMap::new();
             for q in p.warm.iter().chain(p.queries.iter()) {
-                let (mem, local) = build_world().await;
+                let (mem, local) = build_world(p.hetero).await;
                 let meta: Arc<dyn MetadataClient> = local.clone();
                 let node = new_node_with(&mem, meta.clone(), p.adaptive).await;
                 m.insert(q.name.clone(), run_query(&node, meta, q).await);
@@ -255,10 +275,18 @@ fn q(name: &str, hours_ago: i64, select: &str, tenant: &str, streaming: bool) ->
     QuerySpec { name: name.into(), sql: window_sql(hours_ago, select), tenant: tenant.into(), streaming }
 }
 
+/// the same window with Timestamp literals (for the Timestamp-typed chunks of the mixed-label-set world)
+fn qt(name: &str, hours_ago: i64, select: &str, streaming: bool) -> QuerySpec {
+    let (first, last) = if hours_ago >= 10 { (hours_ago / 10, hours_ago % 10) } else { (hours_ago, hours_ago) };
+    let lo = hour_bucket(EPOCH_NS) - first.max(last) * HOUR;
+    let hi = hour_bucket(EPOCH_NS) - first.min(last) * HOUR + HOUR - 1;
+    QuerySpec { name: name.into(), sql: format!("SELECT {select} FROM metrics WHERE timestamp >= to_timestamp_nanos({lo}) AND timestamp <= to_timestamp_nanos({hi})"), tenant: "default".into(), streaming }
+}
+
 pub fn plans(tier: &str) -> Vec<(Params, Cost)> {
     let all = Cost { preempt: 1000, ..Cost::ZERO };
     let sel = "value_f64, host";
-    let p = |name: &str, warm: Vec<QuerySpec>, queries: Vec<QuerySpec>| Params { name: name.into(), queries, warm, adaptive: false, gate_data: false };
+    let p = |name: &str, warm: Vec<QuerySpec>, queries: Vec<QuerySpec>| Params { name: name.into(), queries, warm, adaptive: false, gate_data: false, hetero: false };
     let mut v = vec![
         (p("two queries, disjoint windows", vec![], vec![q("Q1", 1, sel, "default", false), q("Q2", 2, sel, "default", false)]), all),
         (p("query + aggregate, disjoint windows", vec![], vec![q("Q1", 1, "count(*), min(value_f64)", "default", false), q("Q2", 3, "value_f64", "default", false)]), all),
@@ -280,6 +308,10 @@ pub fn plans(tier: &str) -> Vec<(Params, Cost)> {
     let pre = Cost { preempt: if tier == "thorough" { 3 } else { 2 }, ..Cost::ZERO };
     v.push((Params { gate_data: true, ..p("data reads gated: two queries, disjoint windows", vec![], vec![q("Q1", 1, "count(*)", "default", false), q("Q2", 2, sel, "default", false)]) }, pre));
     v.push((Params { gate_data: true, ..p("data reads gated: query vs streaming historical phase", vec![], vec![q("S1", 1, sel, "default", true), q("Q2", 2, "count(*)", "default", false)]) }, pre));
+    // mixed label sets: the first statement of a fresh node takes the unknown-column retry while another query registers
+    v.push((Params { hetero: true, ..p("mixed label sets: retrying query vs plain query", vec![], vec![qt("R1", 1, "value_f64, host", false), qt("Q2", 2, sel, false)]) }, all));
+    v.push((Params { hetero: true, ..p("mixed label sets: retrying query vs streaming historical phase", vec![], vec![qt("R1", 1, "value_f64, host", false), qt("S2", 2, sel, true)]) }, all));
+    v.push((Params { hetero: true, ..p("mixed label sets: retrying streaming phase vs query naming the other label", vec![], vec![qt("SR1", 1, "value_f64, host", true), qt("Q2", 21, "value_f64, region", false)]) }, all));
     if tier == "thorough" {
         v.push((p("three queries, two tenants", vec![], vec![q("Q1", 1, sel, "default", false), q("Q2", 2, sel, "default", false), q("Q3", 3, "value_f64", "tenant-b", false)]), Cost { preempt: 4, ..Cost::ZERO }));
         v.push((p("two streaming subscriptions", vec![], vec![q("S1", 1, sel, "default", true), q("S2", 2, sel, "default", true)]), all));
@@ -300,6 +332,9 @@ pub fn run(tier: &str) -> i32 {
         let st = explore(factory(p.clone()), &cfg);
         for o in st.outcomes.keys() {
             outcomes.insert(o.clone());
+        }
+        if p.hetero && !st.flags.contains_key("bootstrap_listing") {
+            rep.machinery(format!("vacuity guard: in `{}` no query took the bootstrap over all stored chunks (the unknown-column retry was not reached)", p.name));
         }
         if st.flags.contains_key("unbounded_window") {
             rep.machinery(format!("vacuity guard: in `{}` a query's time window was extracted as unbounded, so the queries' chunk selections do not differ", p.name));
